@@ -37,10 +37,17 @@ def run(seed, n):
         data = {kind: [tuple(geo(a)) + tuple(inline) for a, inline, _ in items]}
         for j, f in enumerate(fields):
             data[f] = [ls[j] for _, _, ls in items]
+        # an additional target of the same type (same number of items, its own inline fields 200 + id, the label lists
+        # shared by position): the same steps are applied to both lists, so both keep the same annotations
+        second = m > 0 and rng.random() < 0.4
+        kind2 = kind + '2'
+        add = {kind2: kind} if second else None
+        if second:
+            data[kind2] = [tuple(geo(a)) + (200 + a,) + tuple(inline[1:]) for a, inline, _ in items]
         if kind == 'bboxes':
-            proc = A.core.bbox_utils.BboxProcessor(A.BboxParams('dicaugment_3d', label_fields=fields if k or rng.random() < 0.7 else None))
+            proc = A.core.bbox_utils.BboxProcessor(A.BboxParams('dicaugment_3d', label_fields=fields if k or rng.random() < 0.7 else None), add)
         else:
-            proc = A.core.keypoints_utils.KeypointsProcessor(A.KeypointParams('xyzas', label_fields=fields if k or rng.random() < 0.7 else None))
+            proc = A.core.keypoints_utils.KeypointsProcessor(A.KeypointParams('xyzas', label_fields=fields if k or rng.random() < 0.7 else None), add)
         ng = 6 if kind == 'bboxes' else 5
         steps = []
         try:
@@ -51,12 +58,15 @@ def run(seed, n):
                     if rng.random() < 0.15:
                         drop = set(range(m))
                     data[kind] = [d for d in data[kind] if (d[ng] - 100) not in drop]
+                    if second:
+                        data[kind2] = [d for d in data[kind2] if (d[ng] - 200) not in drop]
                     steps.append('SFilter nat (fun g => negb (existsb (Nat.eqb g) %s))' % nl(sorted(drop)))
                 else:
                     data[kind] = [tuple(d) for d in data[kind]]           # a geometry map keeps id and tail
                     steps.append('SMap nat (fun g => g)')
             data = proc.remove_label_fields_from_data(data)
             out_ann = [[int(v) for v in d[ng:]] for d in data[kind]]
+            out_ann2 = [[int(v) for v in d[ng:]] for d in data[kind2]] if second else None
             out_lab = [[int(data[f][r]) for f in fields] for r in range(len(data[kind]))] if fields and proc.params.label_fields is not None else [[] for _ in data[kind]]
             if proc.params.label_fields is not None:
                 for f in fields:
@@ -77,7 +87,15 @@ def run(seed, n):
                'list_eqb (list_eqb Nat.eqb) (map (fun a => snd (strip nat nat %d a)) out) %s && '
                'list_eqb (list_eqb Nat.eqb) (map (labels_of nat nat %d) out) %s)'
                % ('; '.join(steps), coq_items, kk, exp_ann, kk, exp_lab))
-        kinds['ok'] = kinds.get('ok', 0) + 1
+        if second:
+            # the additional target: the same model on its own items (inline id 200 + a), the shared label lists
+            items2 = '[' + '; '.join('(%d, %s, %s)' % (a, nl([200 + a] + inl[1:]), nl(ls if kk else [])) for a, inl, ls in items) + ']'
+            exp_ann2 = '[' + '; '.join(nl(t) for t in out_ann2) + ']'
+            coq = ('(%s && (let out := run_steps nat nat [%s] (map (attach nat nat) %s) in '
+                   'list_eqb (list_eqb Nat.eqb) (map (fun a => snd (strip nat nat %d a)) out) %s && '
+                   'list_eqb (list_eqb Nat.eqb) (map (labels_of nat nat %d) out) %s))'
+                   % (coq, '; '.join(steps), items2, kk, exp_ann2, kk, exp_lab))
+        kinds['ok' + ('+additional-target' if second else '')] = kinds.get('ok' + ('+additional-target' if second else ''), 0) + 1
         cases.append({'kind': kind, 'k': k, 'items': items, 'steps': steps, 'coq': coq})
     cdir = os.path.join(VERIF, 'coq', 'cases')
     os.makedirs(cdir, exist_ok=True)
